@@ -19,11 +19,11 @@ import (
 )
 
 type Part struct {
-	Name     string   `json:"name"`
-	Bin      string   `json:"bin"`  // seq | mcx | proc
-	Args     []string `json:"args"` // extra args
-	Shards   int      `json:"shards"`
-	Tiers    []string `json:"tiers"`    // empty = both
+	Name     string         `json:"name"`
+	Bin      string         `json:"bin"`  // seq | mcx | proc
+	Args     []string       `json:"args"` // extra args
+	Shards   int            `json:"shards"`
+	Tiers    []string       `json:"tiers"`    // empty = both
 	Deadline map[string]int `json:"deadline"` // per tier seconds (internal deadline, exits 0 non-exhaustive)
 	// Supplementary parts (e.g. a free-running -race pass) can add violations but never count towards coverage
 	// or the exhaustive flag: their silence proves nothing
